@@ -364,7 +364,7 @@ theorem decPrep_fresh (st : DecState) (segs : List Seg) (store : List Byte) (st'
   split at h
   · simp at h
   rw [if_pos hf.mlen] at h
-  simp only [Bool.false_eq_true, if_false] at h
+  simp only [Bool.false_eq_true, if_false, hf.ctx, Nat.zero_mod, if_true] at h
   unfold decEnter at h
   split at h
   · simp at h
